@@ -809,3 +809,119 @@ def coq_write_expected(o):
 
 
 COQ_HEADER = "Require Import EmbossV.Bits.Model EmbossV.Bits.Exec.\nOpen Scope Z_scope.\n"
+
+
+# ----------------------------------------------------------------------------------------------
+# Virtual fields: write inference (+/- chains over one field) and write-through
+# ----------------------------------------------------------------------------------------------
+
+class VExpr:
+    """a +/- chain over exactly one field reference (or a deliberately non-invertible variant)"""
+
+    def __init__(self, text, a, b, field, invertible=True):
+        self.text, self.a, self.b, self.field, self.invertible = text, a, b, field, invertible   # value = a * field + b
+
+
+def gen_chain(rng, field, depth):
+    if depth == 0:
+        return VExpr(field, 1, 0, field)
+    e = gen_chain(rng, field, depth - 1)
+    c = rng.choice([0, 1, 2, 3, 7, 10, 100, 255, 300, rng.randint(0, 500)])
+    k = rng.randrange(4)
+    inner = e.text if depth == 1 else "(%s)" % e.text
+    if k == 0:
+        return VExpr("%s + %d" % (inner, c), e.a, e.b + c, field)
+    if k == 1:
+        return VExpr("%d + %s" % (c, inner), e.a, e.b + c, field)
+    if k == 2:
+        return VExpr("%s - %d" % (inner, c), e.a, e.b - c, field)
+    return VExpr("%d - %s" % (c, inner), -e.a, c - e.b, field)
+
+
+PHYS = {"x": ("UInt", 0, 1, 0, 255), "z": ("Int", 1, 2, -32768, 32767), "u": ("UInt", 3, 4, 0, 2 ** 32 - 1)}
+
+
+def virtual_module(name, rng, n=8):
+    """returns (text, [(field_name, VExpr)])"""
+    lines = ['[(cpp) namespace: "%s"]' % name, "struct Top:",
+             "  0 [+1]  UInt  x", "  1 [+2]  Int  z", '    [byte_order: "LittleEndian"]',
+             "  3 [+4]  UInt  u", '    [byte_order: "BigEndian"]']
+    vs = []
+    for i in range(n):
+        f = rng.choice(["x", "x", "z", "z", "u"])
+        e = gen_chain(rng, f, rng.randint(1, 4))
+        vs.append(("y%d" % i, e))
+    vs.append(("ro0", VExpr("x * 2", 2, 0, "x", invertible=False)))
+    vs.append(("ro1", VExpr("x + x", 2, 0, "x", invertible=False)))
+    vs.append(("ro2", VExpr("$max(x, 3) + 1", None, None, "x", invertible=False)))
+    vs.append(("ro3", VExpr("(x + 1) - z", None, None, "x", invertible=False)))
+    vs.append(("al0", VExpr("x", 1, 0, "x")))
+    vs.append(("yy0", VExpr("y0 + 1", None, None, "y0")))       # through another virtual field
+    for nm, e in vs:
+        lines.append("  let %s = %s" % (nm, e.text))
+    return "\n".join(lines) + "\n", vs
+
+
+# run with PYTHONPATH = the working tree: dumps read_transform / write_method of every virtual field as JSON
+IR_DUMP_SCRIPT = r'''
+import json, sys
+from compiler.front_end import glue
+from compiler.util import ir_data, ir_util
+text = open(sys.argv[1]).read()
+repo = sys.argv[2]
+def reader(fn):
+    if fn == "m.emb":
+        return text, None
+    try:
+        return open(repo + "/" + fn).read(), None
+    except OSError:
+        return None, ["not found"]
+ir, dbg, errs = glue.parse_emboss_file("m.emb", reader)
+if errs:
+    print(json.dumps({"errors": [str(e) for e in errs][:3]})); sys.exit(0)
+def ex(e):
+    w = e.which_expression
+    if w == "constant":
+        return ["const", int(e.constant.value)]
+    if w == "field_reference":
+        return ["field", ".".join(str(x) for x in e.field_reference.path[-1].canonical_name.object_path)]
+    if w == "builtin_reference":
+        nm = e.builtin_reference.canonical_name.object_path[-1]
+        return ["logical"] if nm == "$logical_value" else ["const", 0]
+    if w == "constant_reference":
+        v = ir_util.constant_value(e)
+        return ["const", int(v) if v is not None else 0]
+    if w == "boolean_constant":
+        return ["const", 1 if e.boolean_constant.value else 0]
+    if w == "function":
+        return ["fn", e.function.function.name, [ex(a) for a in e.function.args]]
+    raise ValueError(w)
+out = []
+for t in ir.module[0].type:
+    if not t.has_field("structure"):
+        continue
+    for f in t.structure.field:
+        if not ir_util.field_is_virtual(f) or f.name.name.text.startswith("$"):
+            continue
+        wm = f.write_method
+        d = {"name": f.name.name.text, "read": ex(f.read_transform), "method": wm.which_method}
+        if wm.which_method == "transform":
+            d["destination"] = ".".join(str(x) for x in wm.transform.destination.path[-1].canonical_name.object_path)
+            d["body"] = ex(wm.transform.function_body)
+        if wm.which_method == "alias":
+            d["destination"] = ".".join(str(x) for x in wm.alias.path[-1].canonical_name.object_path)
+        out.append(d)
+print(json.dumps({"fields": out}))
+'''
+
+
+def coq_expr(e, ids):
+    k = e[0]
+    if k == "const":
+        return "(EConst %s)" % coq_z(e[1])
+    if k == "field":
+        return "(EField %d)" % ids.setdefault(e[1], len(ids))
+    if k == "logical":
+        return "ELogical"
+    f = {"ADDITION": "FAdd", "SUBTRACTION": "FSub"}.get(e[1]) or "(FOther %d)" % (sum(ord(c) for c in e[1]))
+    return "(EFn %s [%s])" % (f, "; ".join(coq_expr(a, ids) for a in e[2]))
